@@ -545,7 +545,8 @@ func (c *Ctx) isNewHelper(callee *ssa.Function) bool {
 	if callee != top {
 		return false // closures are handled through their own call sites
 	}
-	if top.Synthetic != "" || !c.fnInModule(top) || top.Pkg == nil && top.Origin() == nil {
+	// (an instantiation of a generic function is synthetic but stands for its source function)
+	if (top.Synthetic != "" && top.Origin() == nil) || !c.fnInModule(top) || top.Pkg == nil && top.Origin() == nil {
 		return false
 	}
 	pkg := ""
